@@ -428,9 +428,14 @@ class FnMask:
         # parameters
         for i in range(1, fn["argc"] + 1):
             t = self.lty(i)
+            av = self.argvals[i - 1]
+            if isinstance(av, tuple) and av and av[0] == "vec":
+                if t is None:
+                    self.vec[i] = av[1]
+                    continue
+                av = "default"
             if t is None:
                 continue
-            av = self.argvals[i - 1]
             if av == "default":
                 if i in self.ctlp:
                     self.vals[i] = ("s", MASK32)
@@ -475,7 +480,9 @@ class FnMask:
         else:
             v = self.get(0)
             ret = TOP if v == "bot" else v
-        return {"ret": ret, "vals": self.vals}
+        # a helper returning a lane-mask vector: only when the return place has one definition and it is a known mask
+        retvec = self.vec.get(0) if body.single_def(0) is not None else None
+        return {"ret": ret, "vals": self.vals, "retvec": retvec}
 
     def assign(self, place, rv):
         l = place[0]
@@ -580,7 +587,13 @@ class FnMask:
             for i, a in enumerate(args):
                 v, ty = self.operand(a)
                 if ty is None:
-                    av.append("default")
+                    w = self.vec_of(a)
+                    if w is not None:
+                        # a lane-mask vector handed to a (private) helper keeps its lane width
+                        av.append(("vec", w))
+                        anyinfo = True
+                    else:
+                        av.append("default")
                 else:
                     if v is not TOP and v[0] == "sr":
                         v = TOP
@@ -596,6 +609,12 @@ class FnMask:
                 return ch
             if dt is not None:
                 return self.setv(dl, r)
+            rv = res.get("retvec")
+            if rv is not None:
+                old = self.vec.get(dl)
+                if old != rv:
+                    self.vec[dl] = rv if old is None else min(old, rv)
+                    return True
             return False
         # std / intrinsics
         short = name.split("::")[-1]
